@@ -101,6 +101,9 @@ func (e *Envelope) verifySignature(sig *dsig.Signature, keys ...*dsig.PublicKey)
 	if e.Head == nil {
 		return errors.New("missing header")
 	}
+	if sig == nil {
+		return errors.New("missing signature")
+	}
 	if len(keys) == 0 {
 		// no keys provided, only check the contents
 		h := new(head.Header)
